@@ -300,6 +300,7 @@ class Driver:
                     st.mem[(SET, (nm,))] = sym('htype')
                 elif t.get('k') == 'bool':
                     st.mem[(SET, (nm,))] = C(1 if no_echo else 0) if no_echo is not None else R(0, 1)
+        st.comps[('cap', KEY)] = (C(16), 1)       # the caller's key buffer: 16 bytes
         for j in range(16):
             st.sym['$key%d' % j] = (0, 255)
             st.mem[(KEY, (j,))] = sym('$key%d' % j)
@@ -327,7 +328,9 @@ class Driver:
         key = (op, T, tuple(sorted(kw.items())))
         if key in self.results:
             return self.results[key]
+        self.current_op = 'ctor'
         I, states = self.build(T, **kw)
+        self.current_op = op
         f = self.ops[op]
         out = []
         for s in states:
@@ -351,6 +354,7 @@ class Driver:
 
     def run_second(self, op, T, base):
         """op on a freshly constructed runner, in the process state `base` left by an earlier operation."""
+        self.current_op = 'second-' + op
         I, states = self.build(T, base=base)
         f = self.ops[op]
         out = []
